@@ -182,7 +182,7 @@ func genEexecPlain(c *rt.C, env *psEnv, full []poolItem) ([]byte, bool) {
 				// non-tail recursion to within a few levels of the execution
 				// stack limit, counting how far it got (the section itself must not
 				// cost a level that the plaintext does not have)
-				fmt.Fprintf(&out, "/cnt%d 0 def /rec%d { /cnt%d cnt%d 1 add def dup 0 gt { 1 sub rec%d 0 pop } if } def %d rec%d pop\n", i, i, i, i, i, 90+rng.IntN(14), i)
+				fmt.Fprintf(&out, "/cnt%d 0 def /rec%d { /cnt%d cnt%d 1 add def dup 0 eq { } { 1 sub rec%d 0 pop } ifelse } def %d rec%d pop\n", i, i, i, i, i, 90+rng.IntN(14), i)
 				break
 			}
 			// extra dictionaries left open inside the section
